@@ -23,7 +23,7 @@ import common
 import restab
 
 
-def run(rep, tier="quick", replay=None, evidence_dir=None):
+def run(rep, tier="quick", replay=None, evidence_dir=None, collect_only=False):
     prog = Program(factsmod.extract())
     rep.rule("C08.R1", "per reader shape, exactly the specification's promotions resolve")
     rep.rule("C08.R2", "every reader shape has a resolver")
@@ -317,6 +317,8 @@ def run(rep, tier="quick", replay=None, evidence_dir=None):
                 if st["s"] == "assign" and st["rv"]["r"] == "agg" and st["rv"].get("ak") == "tuple" and len(st["rv"]["ops"]) == 2 and "key" in bb.opdesc(st["rv"]["ops"][0]):
                     keyok = True
         rep.ob("C08.R9", "resolve_map keeps each entry's key", keyok, "", prog.bodies["types::Value::resolve_map"].loc())
+    if collect_only:
+        return rep
     rep.floor("C08", "obligations", len(rep.obligations), 500)
     rep.not_decided = ["union branch selection by type, default values, idempotence, validate(resolved, R): value-level, need execution",
                        "logical-type *values* read with a reader of the underlying type (date -> long ...): demanded by C09.R1 where the compatibility checker promises it"]
